@@ -208,6 +208,8 @@ def generate(rng, index, cfg):
     world["start_flags"] = []
     if mode != "server" and rng.random() < 0.25:
         world["start_flags"] = rng.choice([["-O"], ["--ignore-outputs"], ["-s"], ["-M"], ["-D"], ["-S"], ["-o"], ["-A", "-I"], ["-m"]])
+        if mode in OUTPUT_NAME and not world.get("output_in_missing_dir") and rng.random() < 0.7:
+            world["pre_existing_output"] = True
     # a submission that differs from what the output file already holds only in outputs, counts and metadata (the
     # user re-ran cells, or resolved a conflict in an output)
     upload_pool.append(nbgen.edit(rng, files["b.ipynb"], n_edits=rng.randint(1, 3), kinds=["out", "ec", "md", "outmeta", "nbmd"]))
@@ -313,6 +315,8 @@ def generate(rng, index, cfg):
             if not malformed:
                 ex["kind"] = "store_valid"
                 ex["nb"] = huge_at if (huge_at is not None and rng.random() < 0.4) else rng.randrange(len(upload_pool))
+                if world["start_flags"] and world.get("pre_existing_output") and rng.random() < 0.45:
+                    ex["nb"] = 3      # the variant of the existing output that differs only in outputs / counts / metadata
                 ex["body"] = jbody(dict(extra, merged=upload_pool[ex["nb"]]))
             else:
                 ex["kind"] = "store_malformed"
